@@ -23,7 +23,7 @@ def nz(d):
 
 def obligations(ops, outs):
     _, _, name, periods, _ = ops[0]
-    fo = rfam.feeds(ops, outs, 'a')
+    fo = rfam.feeds_since_reset(ops, outs, 'a')
     stream = [v for v, _ in fo]
     bars = isinstance(stream[0], (tuple, list))
     n = periods[0]
@@ -54,12 +54,15 @@ def obligations(ops, outs):
     return obs
 
 
-def r_family(mir, name, mode, spec, t, seed, to):
+def r_family(mir, name, mode, spec, t, seed, to, reset_prefix=0):
     ps, passume = make_periods(spec)
     stream = make_stream(mode, t)
     ops = ops_stream(name, ps, None, stream)
     assume = passume + stream_assumptions(stream, 'validbar' if mode == 'bar' else 'positive')
-    fam = 'R:C07 %s %s periods=%s t=%d' % (name, mode, ','.join(map(str, spec)), t)
+    if reset_prefix:
+        pre = make_stream(mode, reset_prefix, 'h'); assume += stream_assumptions(pre, 'validbar' if mode == 'bar' else 'positive')
+        ops = rfam.with_reset_prefix(ops, pre)
+    fam = 'R:C07 %s %s periods=%s t=%d%s' % (name, mode, ','.join(map(str, spec)), t, ' after %d inputs and a reset' % reset_prefix if reset_prefix else '')
     wit = lambda ops_, outs_, insts_, ex_: z3.BoolVal(True)
     return run_family(mir, fam, ops, assume, obligations, seed, to, exec_assume=passume, int_vars=[p for p in ps if is_sym(p)],
                       witness='perturb_pm',
@@ -76,7 +79,10 @@ def main(chk):
     to = 40 if q else 600
     tf = (lambda n: 2 * n + 3) if q else (lambda n: 3 * n + 3)
     jobs = []
-    J = lambda *a: jobs.append((r_family, (mir,) + a + (chk.seed, to), {}))
+    J = lambda *a, **k: jobs.append((r_family, (mir,) + a + (chk.seed, to), k))
+    for n in ns[:3]:
+        for nm, md in (('RSI', 'scalar'), ('FAST_STOCH', 'scalar'), ('ER', 'scalar'), ('MFI', 'bar')): J(nm, md, [n], tf(n), reset_prefix=n + 2)
+        J('SLOW_STOCH', 'scalar', [n, 2], tf(n), reset_prefix=n + 2)
     for n in ns:
         J('RSI', 'scalar', [n], tf(n))
         J('FAST_STOCH', 'scalar', [n], tf(n)); J('FAST_STOCH', 'bar', [n], tf(n))
